@@ -4,8 +4,8 @@ from sim import resume
 PROP = 'C17'
 LEVEL = 'fault_enumeration'
 TIERS = {
-    'quick': {'runs': 400, 'layer_a': 62, 'wall_per_run': 300},
-    'thorough': {'runs': 12000, 'layer_a': 1860, 'wall_per_run': 300},
+    'quick': {'runs': 1200, 'layer_a': 186, 'wall_per_run': 300},
+    'thorough': {'runs': 40000, 'layer_a': 6200, 'wall_per_run': 300, 'selftest': 400},
 }
 REQUIRED_PROBES = ['resume_skipped_and_processed', 'crash_inside_batch', 'crash_before_first_write',
                    'crash_with_2plus_pages_partial', 'id_with_extension_token_or_alias', 'multi_crash_history',
